@@ -136,14 +136,26 @@ func setECS(
 	} else {
 		opt.SetUDPSize(dnsmsg.DefaultEDNSUDPSize)
 
-		for _, o := range opt.Option {
-			if edns, ok := o.(*dns.EDNS0_SUBNET); ok {
-				edns.SourceNetmask = prefixLen
-				edns.SourceScope = scope
-				edns.Address = ip
-
-				return nil
+		// Reuse the first ECS option and remove all others, if any, so that no
+		// subnet supplied by the client is left in the message.
+		found := false
+		opt.Option = slices.DeleteFunc(opt.Option, func(o dns.EDNS0) (del bool) {
+			edns, ok := o.(*dns.EDNS0_SUBNET)
+			if !ok {
+				return false
+			} else if found {
+				return true
 			}
+
+			found = true
+			edns.SourceNetmask = prefixLen
+			edns.SourceScope = scope
+			edns.Address = ip
+
+			return false
+		})
+		if found {
+			return nil
 		}
 	}
 
